@@ -754,8 +754,8 @@ impl Arena {
     }
     let header = self.header_mut();
 
-    let want = header.allocated + size;
-    if want <= self.cap {
+    let want = header.allocated.checked_add(size).filter(|want| *want <= self.cap);
+    if let Some(want) = want {
       let offset = header.allocated;
       header.allocated = want;
 
@@ -862,11 +862,10 @@ impl Arena {
 
     let header = self.header_mut();
     let allocated = header.allocated;
-    let aligned_offset = align_offset::<T>(allocated);
     let size = mem::size_of::<T>() as u32;
-    let want = aligned_offset + size + extra;
+    let want = checked_end::<T>(allocated, size as u64 + extra as u64).filter(|want| *want <= self.cap);
 
-    if want <= self.cap {
+    if let Some(want) = want {
       // break size + extra;
       let offset = header.allocated;
       header.allocated = want;
@@ -884,11 +883,11 @@ impl Arena {
     // allocate through slow path
     match self.freelist {
       Freelist::None => Err(Error::InsufficientSpace {
-        requested: size + extra,
+        requested: size.saturating_add(extra),
         available: self.remaining() as u32,
       }),
       Freelist::Optimistic => {
-        match self.alloc_slow_path_optimistic(Self::pad::<T>() as u32 + extra) {
+        match self.alloc_slow_path_optimistic((Self::pad::<T>() as u32).saturating_add(extra)) {
           Ok(mut bytes) => {
             bytes.align_bytes_to::<T>();
             Ok(Some(bytes))
@@ -897,7 +896,7 @@ impl Arena {
         }
       }
       Freelist::Pessimistic => {
-        match self.alloc_slow_path_pessimistic(Self::pad::<T>() as u32 + extra) {
+        match self.alloc_slow_path_pessimistic((Self::pad::<T>() as u32).saturating_add(extra)) {
           Ok(mut bytes) => {
             bytes.align_bytes_to::<T>();
             Ok(Some(bytes))
@@ -979,11 +978,10 @@ impl Arena {
 
     let header = self.header_mut();
     let allocated = header.allocated;
-    let align_offset = align_offset::<T>(allocated);
     let size = t_size as u32;
-    let want = align_offset + size;
+    let want = checked_end::<T>(allocated, size as u64).filter(|want| *want <= self.cap);
 
-    if want <= self.cap {
+    if let Some(want) = want {
       let offset = header.allocated;
       header.allocated = want;
       let mut allocated = Meta::new(self.ptr as _, offset, want - offset);
@@ -1003,7 +1001,7 @@ impl Arena {
     // allocate through slow path
     match self.freelist {
       Freelist::None => Err(Error::InsufficientSpace {
-        requested: want,
+        requested: size,
         available: self.remaining() as u32,
       }),
       Freelist::Optimistic => match self.alloc_slow_path_optimistic(Self::pad::<T>() as u32) {
